@@ -45,7 +45,7 @@ EST_KINDS = ["ok", "ok", "ok", "ok", "status", "connect_error", "empty_stream", 
 FORMS = ["event_endpoint", "event_endpoint", "data_only_messages", "data_only_mcp", "query_params", "full_url", "event_endpoint_crlf"]
 MODES = ["200_body", "200_body", "202_then_event", "202_then_event", "event_then_202", "202_silence", "other_status_json", "other_status_plain",
          "exc", "200_badjson", "202_then_event_dataonly"]
-TEXTS = ["plain", "é€\U0001F600", "line ps"]
+TEXTS = ["plain", "é€\U0001F600", "ls\u2028ps\u2029nel\u0085end"]
 
 
 def generate(rng: random.Random, tier: str) -> dict:
